@@ -1,6 +1,7 @@
 import NbdimeProofs.Lemmas.MergeCells
 import NbdimeProofs.Lemmas.ApplyKeywise
 import NbdimeProofs.Lemmas.SortBlocks
+import NbdimeProofs.Lemmas.KeywiseMore
 /-
   The mixed domain of C06: the two sides patch different items of the list under root key `k` (the cells), and on every
   other root key they either touch it on one side only or say the same. What `_merge_dicts` decides, exactly.
@@ -814,5 +815,168 @@ theorem apply_mixed_obj (E : Env) (base : List (String × J)) (ld rd : List Op) 
       have := ((hUmem e).mp he).2
       rw [hab, hb'] at this
       exact this rfl
+
+/-- **what a merge in the mixed domain decides**: the sorted list of the key decisions (one per entry of either side under
+    a key other than `k`) and of the cell decisions of the walk -/
+theorem mixed_decisions (E : Env) (base : List (String × J)) (ld rd : List Op) (ds : List MD)
+    (k : String) (xs : List J) (dL dR : List Op)
+    (hmapL : ∀ e ∈ ld, e.isMapOp = true) (hndL : (ld.map Op.skey).Nodup)
+    (hmapR : ∀ e ∈ rd, e.isMapOp = true) (hndR : (rd.map Op.skey).Nodup)
+    (hkL : Op.patchK k dL ∈ ld) (hkR : Op.patchK k dR ∈ rd)
+    (hagree : ∀ el ∈ ld, ∀ er ∈ rd, el.skey = er.skey → el.skey ≠ k → el = er)
+    (hk : lookupKV k base = some (.arr xs)) (h0 : AscPatch 0 dL) (h1 : AscPatch 0 dR)
+    (hdis : ∀ e0 ∈ dL, ∀ e1 ∈ dR, e0.idx ≠ e1.idx)
+    (hneq : Op.pyEq (.patchK k dL) (.patchK k dR) = false)
+    (h : decideMerge E (.obj base) ld rd = .ok ds) :
+    ∃ R, ds = sortDesc R ∧ ∀ d ∈ R, d ∈ walk [PKey.s k] (boundsOf xs.length dL dR) dL dR ∨
+      ∃ s e, d = mkSide s e ∧ e.isMapOp = true ∧ e.skey ≠ k ∧ (e ∈ ld ∨ e ∈ rd) := by
+  obtain ⟨l, hl, hskL, hpermL, hkeyL⟩ := dictBased_nodup ld hmapL hndL
+  obtain ⟨r, hr, hskR, hpermR, hkeyR⟩ := dictBased_nodup rd hmapR hndR
+  obtain ⟨tl1, tl2, tl3⟩ := table_lookup hskL hpermL hkeyL
+  obtain ⟨tr1, tr2, tr3⟩ := table_lookup hskR hpermR hkeyR
+  have hlk : lookupKV k l = some (.patchK k dL) := tl2 _ hkL
+  have hrk : lookupKV k r = some (.patchK k dR) := tr2 _ hkR
+  have hkl : (l.map (·.1)).Nodup := sk_keys_nodup l hskL
+  have hkr : (r.map (·.1)).Nodup := sk_keys_nodup r hskR
+  have hboth : (bothKeys l r).Nodup := by
+    unfold bothKeys
+    have hin : ((l.map (·.1)).filter (fun k => (r.map (·.1)).contains k)).Nodup := List.filter_sublist.nodup hkl
+    exact (sortStrs_perm _ hin).nodup_iff.mpr hin
+  have hone : (oneKeys l r).Nodup := by
+    unfold oneKeys
+    have hin : ((l.map (·.1)).filter (fun k => !(r.map (·.1)).contains k) ++
+        (r.map (·.1)).filter (fun k => !(l.map (·.1)).contains k)).Nodup := by
+      rw [List.nodup_append]
+      refine ⟨List.filter_sublist.nodup hkl, List.filter_sublist.nodup hkr, ?_⟩
+      intro a ha b' hb' hab
+      subst hab
+      have h1 := (List.mem_filter.mp ha).1
+      have h2 := (List.mem_filter.mp hb').2
+      simp only [Bool.not_eq_true', List.contains_eq_mem, decide_eq_false_iff_not] at h2
+      exact h2 h1
+    exact (sortStrs_perm _ hin).nodup_iff.mpr hin
+  have hmemOne : ∀ k', k' ∈ oneKeys l r ↔ ((lookupKV k' l).isSome ≠ (lookupKV k' r).isSome) := by
+    intro k'
+    unfold oneKeys
+    rw [_root_.Nbdime.mem_sortStrs]
+    simp only [List.mem_append, List.mem_filter, Bool.not_eq_true', List.contains_eq_mem, decide_eq_false_iff_not,
+      mem_keys_iff]
+    cases (lookupKV k' l).isSome <;> cases (lookupKV k' r).isSome <;> simp
+  have hmemBoth : ∀ k', k' ∈ bothKeys l r ↔ ((lookupKV k' l).isSome = true ∧ (lookupKV k' r).isSome = true) := by
+    intro k'
+    unfold bothKeys
+    rw [_root_.Nbdime.mem_sortStrs]
+    simp only [List.mem_filter, List.contains_eq_mem, decide_eq_true_eq, mem_keys_iff]
+  have hone_ne : ∀ k' ∈ oneKeys l r, k' ≠ k := by
+    intro k' hk' hh
+    subst hh
+    have := (hmemOne _).mp hk'
+    rw [hlk, hrk] at this
+    exact this rfl
+  have hag' : ∀ k' el er, k' ≠ k → lookupKV k' l = some el → lookupKV k' r = some er → el = er := by
+    intro k' el er hne' h1' h2'
+    exact hagree el (tl1 k' el h1').1 er (tr1 k' er h2').1 (by rw [(tl1 k' el h1').2, (tr1 k' er h2').2])
+      (by rw [(tl1 k' el h1').2]; exact hne')
+  unfold decideMerge at h
+  obtain ⟨m, hf⟩ : ∃ m, bigFuel = m + 1 + 1 := ⟨99998, rfl⟩
+  rw [hf] at h
+  have hunf : mergeF E (m + 1 + 1) false (.obj base) (.d ld) (.d rd) [] = mergeDicts E (mergeF E (m + 1)) false base ld rd [] := rfl
+  rw [hunf] at h
+  simp only [bind, Except.bind] at h
+  cases hmd : mergeDicts E (mergeF E (m + 1)) false base ld rd [] with
+  | error e => simp [hmd] at h
+  | ok R =>
+    obtain ⟨pre, post, hsplit, hkpre, hkpost, hR⟩ := mergeDicts_mixed_exact E m base ld rd l r hl hr k xs dL dR hlk hrk hag'
+      (fun k' e h1' => hmapL e (tl1 k' e h1').1) hk h0 h1 hdis hneq hboth R hmd
+    simp only [hmd] at h
+    have hstripW := walk_strip [PKey.s k] (boundsOf xs.length dL dR) dL dR
+    have hncW := walk_noconf [PKey.s k] (boundsOf xs.length dL dR) dL dR
+    generalize hWdef : walk [PKey.s k] (boundsOf xs.length dL dR) dL dR = W at hR hstripW hncW
+    have hkd2 : ∀ k' d, keyDec l r k' = some d → k' ≠ k →
+        ∃ s e, d = mkSide s e ∧ e.isMapOp = true ∧ e.skey ≠ k ∧ (e ∈ ld ∨ e ∈ rd) := by
+      intro k' d hd hne'
+      obtain ⟨s, e, rfl, hcase⟩ := keyDec_mem hd
+      rcases hcase with h1' | ⟨h1', h2'⟩
+      · exact ⟨s, e, rfl, hmapL e (tl1 k' e h1').1, by rw [(tl1 k' e h1').2]; exact hne', Or.inl (tl1 k' e h1').1⟩
+      · exact ⟨s, e, rfl, hmapR e (tr1 k' e h2').1, by rw [(tr1 k' e h2').2]; exact hne', Or.inr (tr1 k' e h2').1⟩
+    have hRmem : ∀ d ∈ R, d ∈ W ∨ ∃ s e, d = mkSide s e ∧ e.isMapOp = true ∧ e.skey ≠ k ∧ (e ∈ ld ∨ e ∈ rd) := by
+      intro d hd
+      rw [hR] at hd
+      simp only [List.mem_append, List.mem_filterMap] at hd
+      rcases hd with ((⟨k', hk', hkd⟩ | ⟨k', hk', hkd⟩) | hd) | ⟨k', hk', hkd⟩
+      · exact Or.inr (hkd2 k' d hkd (hone_ne k' hk'))
+      · exact Or.inr (hkd2 k' d hkd (fun hh => hkpre (hh ▸ hk')))
+      · exact Or.inl hd
+      · exact Or.inr (hkd2 k' d hkd (fun hh => hkpost (hh ▸ hk')))
+    have hnc : hasConflicted R = false := by
+      unfold hasConflicted
+      rw [List.any_eq_false]
+      intro d hd
+      rcases hRmem d hd with hw | ⟨s, e, rfl, _⟩
+      · unfold hasConflicted at hncW
+        rw [List.any_eq_false] at hncW
+        exact hncW d hw
+      · simp [mkSide_noconf]
+    rw [resolveGeneric_noconf hnc] at h
+    simp only [pure, Except.pure, Except.ok.injEq] at h
+    have hstrip : R.map (fun d => ({ d with strategy := none } : MD)) = R := by
+      have hNK : ∀ (keys : List String), (∀ k' ∈ keys, k' ≠ k) →
+          (keys.filterMap (keyDec l r)).map (fun d => ({ d with strategy := none } : MD)) = keys.filterMap (keyDec l r) := by
+        intro keys hkeys
+        have : ∀ d ∈ keys.filterMap (keyDec l r), ({ d with strategy := none } : MD) = d := by
+          intro d hd
+          obtain ⟨k', hk', hkd⟩ := List.mem_filterMap.mp hd
+          obtain ⟨s, e, rfl, _⟩ := hkd2 k' d hkd (hkeys k' hk')
+          simp [mkSide]
+        rw [List.map_congr_left this]; simp
+      rw [hR]
+      simp only [List.map_append]
+      rw [hNK _ hone_ne, hNK pre (fun k' hk' hh => hkpre (hh ▸ hk')), hNK post (fun k' hk' hh => hkpost (hh ▸ hk')), hstripW]
+    unfold validated at h
+    rw [hstrip] at h
+    exact ⟨R, h.symm, hRmem⟩
+
+/-- the diffs inside the cell decisions of the walk are well-formed for the item they sit in -/
+theorem walk_items_wf (base : List (String × J)) (k : String) (xs : List J) (dL dR : List Op)
+    (hk : lookupKV k base = some (.arr xs)) (h0 : AscPatch 0 dL) (h1 : AscPatch 0 dR)
+    (hdis : ∀ e0 ∈ dL, ∀ e1 ∈ dR, e0.idx ≠ e1.idx)
+    (hwL : wfList xs dL 0 none = true) (hwR : wfList xs dR 0 none = true) :
+    ∀ d ∈ walk [PKey.s k] (boundsOf xs.length dL dR) dL dR, ∀ x, (d.localDiff = some x ∨ d.remoteDiff = some x) →
+      wfAt (.obj base) d.path x = true := by
+  have hb0 : StrictAsc (insertNat xs.length [0]) := (insertNat_asc xs.length [0] trivial).1
+  obtain ⟨a1, a2, a3⟩ := sectionBoundaries_patches dL (insertNat xs.length [0]) 0 h0 hb0
+  obtain ⟨b1, b2, b3⟩ := sectionBoundaries_patches dR _ 0 h1 a1
+  obtain ⟨w1, _, _, _, _⟩ := walkE_spec (boundsOf xs.length dL dR) dL dR 0 b1 h0 h1 (fun e he => b2 _ (a3 e he)) b3 hdis
+  intro d hd' x hx
+  rw [walk_eq] at hd'
+  obtain ⟨p, hp, rfl⟩ := List.mem_map.mp hd'
+  have hent : ∃ j dd v, p.2 = .patchI j dd ∧ xs[j]? = some v ∧ v.isContainer = true ∧ wf v dd = true := by
+    rcases w1 p hp with ⟨_, hm⟩ | ⟨_, hm⟩
+    · obtain ⟨_, j, dd, hpe⟩ := AscPatch.idx_ge h0 p.2 hm
+      rw [hpe] at hm
+      obtain ⟨v, f1, f2, f3⟩ := wfList_entries xs dL 0 none hwL j dd hm
+      exact ⟨j, dd, v, hpe, f1, f2, f3⟩
+    · obtain ⟨_, j, dd, hpe⟩ := AscPatch.idx_ge h1 p.2 hm
+      rw [hpe] at hm
+      obtain ⟨v, f1, f2, f3⟩ := wfList_entries xs dR 0 none hwR j dd hm
+      exact ⟨j, dd, v, hpe, f1, f2, f3⟩
+  obtain ⟨j, dd, v, hpe, f1, f2, f3⟩ := hent
+  rw [hpe] at hx ⊢
+  obtain ⟨q', y, hmk, hpush⟩ := mkItem_patch [PKey.s k] p.1 j dd
+  rw [hmk] at hx ⊢
+  have hxy : x = y := by
+    generalize p.1 = sd at hx
+    cases sd <;> simp [sideMD] at hx <;> exact hx.symm
+  subst hxy
+  show wfAt (.obj base) ([PKey.s k] ++ PKey.i j :: q') x = true
+  simp only [List.cons_append, List.nil_append, wfAt, hk, f1]
+  cases q' with
+  | nil =>
+    have : x = dd := hpush
+    subst this
+    exact f3
+  | cons k2 q2 =>
+    apply wf_pushPath (k2 :: q2) v x (by simp)
+    rw [hpush]; exact f3
 
 end Nbdime
